@@ -35,7 +35,7 @@ CHECK = {
     "extra": [_recheck],
     "lean_sources": ["ClusterVerif/Model/C05.lean", "ClusterVerif/Spec/C05.lean", "ClusterVerif/Lemmas/C05.lean"],
     "rule": "gated schedules on the real stateless tracker: 0-40 scripted actions (track / untrack / recover / recoverAll, daemon applies / answers nil / "
-            "answers an error for a parked call, daemon loses a pin, an answer racing with an instruction) over 3-4 CIDs with local / everywhere / "
+            "answers an error for a parked call — the oldest of the cid or specifically its Pin / Unpin call —, daemon loses a pin, an answer racing with an instruction) over 3-4 CIDs with local / everywhere / "
             "cluster-dag / remote / remote-without-allocations / meta pins, recursive and direct, 3 option variants; queue size 1-3, 1-3 pin workers; "
             "six generator profiles (mixed, queue pressure, churn on one cid, faulty daemon, recover rounds, noise) and a corpus of boundary schedules; "
             "one case = one schedule with the observation (Status per cid, StatusAll, daemon pin table with modes, shared pinset, parked calls, returned "
